@@ -1,6 +1,18 @@
 //! C10: Wrath server headers (4 or 5 bytes) round-trip in sequence through both client decoding paths.
 use crate::c09::{client_halves, pair, server_halves, RefRc4, S2C};
 use crate::ctx::*;
+
+/// a reader that hands out at most `step` bytes per call
+struct Frag<'a> { data: &'a [u8], pos: usize, step: usize }
+impl<'a> Frag<'a> { fn len(&self) -> usize { self.data.len() - self.pos } }
+impl<'a> std::io::Read for Frag<'a> {
+    fn read(&mut self, buf: &mut [u8]) -> std::io::Result<usize> {
+        let n = buf.len().min(self.step).min(self.data.len() - self.pos);
+        buf[..n].copy_from_slice(&self.data[self.pos..self.pos + n]);
+        self.pos += n;
+        Ok(n)
+    }
+}
 use wow_srp::wrath_header::{ClientDecrypterHalf, ServerEncrypterHalf, WrathServerAttempt};
 
 const SIZES: [u32; 13] = [0, 1, 8, 0x7FFE, 0x7FFF, 0x8000, 0x8001, 0xFFFF, 0x10000, 0x3FFFFF, 0x400000, 0x7FFFFE, 0x7FFFFF];
@@ -403,8 +415,9 @@ fn sequences(ctx: &mut Ctx) {
             }
             let emitted = wire.len();
             wire.extend_from_slice(&trailing);
-            // path A: one reader over everything
-            let mut reader: &[u8] = &wire;
+            // path A: one reader over everything, delivering at most `step` bytes per read call
+            // (short reads are legal for a transport; 64 = everything at once)
+            let mut reader = Frag { data: &wire, pos: 0, step: [1usize, 2, 3, 64][(k as usize / 4) % 4] };
             let mut a: Vec<(Result<H, String>, usize)> = Vec::new();
             let (_, mut rd_half) = client_halves(key);
             for _ in 0..hs.len() {
